@@ -167,6 +167,8 @@ pub struct Shared {
     pub transitions: AtomicU64,
     pub validated: AtomicU64,
     pub samples: Mutex<Vec<Value>>,
+    /// hashes of the distinct (file contents, session) observations
+    pub observed: Mutex<std::collections::BTreeSet<u64>>,
 }
 
 pub struct HistModel {
@@ -334,6 +336,7 @@ impl Model for HistModel {
         self.shared.validated.fetch_add(1, Ordering::Relaxed);
         let got_items = impl_items(&sh);
         let got_file = file_lines(&file);
+        self.shared.observed.lock().unwrap().insert(crate::engine::report::hash_str(&format!("{:?}|{:?}", got_file, got_items)));
         if got_file != model.file {
             self.record(&trace, "file-vs-model", format!("{:?}", model.file), format!("{:?}", got_file));
         }
@@ -423,7 +426,7 @@ pub fn run(tier: Tier, replay: Option<Value>) -> ! {
     let rt = Arc::new(tokio::runtime::Builder::new_multi_thread().worker_threads(2).enable_all().build().unwrap());
     let dir = crate::engine::procs::scratch_root().join("c20");
     std::fs::create_dir_all(&dir).unwrap();
-    let shared = Arc::new(Shared { failures: Mutex::new(vec![]), transitions: AtomicU64::new(0), validated: AtomicU64::new(0), samples: Mutex::new(vec![]) });
+    let shared = Arc::new(Shared { failures: Mutex::new(vec![]), transitions: AtomicU64::new(0), validated: AtomicU64::new(0), samples: Mutex::new(vec![]), observed: Mutex::new(Default::default()) });
     if let Some(r) = replay {
         rep.replay_mode = true;
         let ops = parse_ops(r["case"].as_str().unwrap_or(""));
@@ -439,7 +442,7 @@ pub fn run(tier: Tier, replay: Option<Value>) -> ! {
     }
     let depth: u8 = tier.pick(5, 7);
     let run_once = |threads: usize| -> (usize, u64) {
-        let sh = Arc::new(Shared { failures: Mutex::new(vec![]), transitions: AtomicU64::new(0), validated: AtomicU64::new(0), samples: Mutex::new(vec![]) });
+        let sh = Arc::new(Shared { failures: Mutex::new(vec![]), transitions: AtomicU64::new(0), validated: AtomicU64::new(0), samples: Mutex::new(vec![]), observed: Mutex::new(Default::default()) });
         let m = HistModel { rt: rt.clone(), dir: dir.clone(), max_depth: depth, shared: sh.clone(), ops: all_ops() };
         let c = m.checker().threads(threads).spawn_bfs().join();
         (c.unique_state_count(), sh.transitions.load(Ordering::Relaxed))
@@ -476,7 +479,9 @@ pub fn run(tier: Tier, replay: Option<Value>) -> ! {
         obs.insert(f.observed.clone());
         rep.fail(f);
     }
-    rep.observations.insert(states as u64);
+    for h in shared.observed.lock().unwrap().iter() {
+        rep.observations.insert(*h);
+    }
     rep.assumptions.push("timestamps are made deterministic through History::update_by_id right after add_to_history (wall clock replaced by a per-command constant)".into());
     rep.assumptions.push("commands are single-line; multi-line commands are outside the statement".into());
     rep.finish()
